@@ -10,6 +10,13 @@ def run(ctx):
                        env={"VERIF_N": 400 if quick else 20000})
         ctx.correspond(b, "TestVerifC06B", "svdriver_c06", "c06b",
                        env={"VERIF_N": 300 if quick else 8000})
+        ctx.correspond(b, "TestVerifC06C", "svdriver_c06", "c06c",
+                       env={"VERIF_N": 25 if quick else 400})
+    if not quick:
+        br = ctx.go_test_binary("fs/remote", "h_remote_race", race=True)
+        if br:
+            ctx.correspond(br, "TestVerifC06C", "svdriver_c06", "c06c-race",
+                           env={"VERIF_N": 150}, timeout=3000)
     return ctx.finish(
         level="proof",
         rule="histories of regionSet.add over blobs of 7 sizes x 5 chunk grids (chunk-aligned, arbitrary and "
